@@ -70,6 +70,7 @@ func main() {
 	trace := flag.Bool("trace", false, "trace instructions")
 	tmo := flag.Int("timeout", 0, "solver timeout ms (0: per tier)")
 	logdir := flag.String("logdir", "", "solver log dir")
+	budgetFlag := flag.Int("budget", 0, "override per-harness time budget (s)")
 	noReplay := flag.Bool("noreplay", false, "skip native replay (debugging)")
 	replayPath := flag.String("replay", "", "replay a recorded counterexample file natively")
 	flag.Parse()
@@ -111,8 +112,8 @@ func main() {
 	}
 	eng := &interp.Engine{
 		Prog: ld.prog, Sizes: ld.sizes, KnownOpen: map[string]bool{}, MaxPicks: 300, Unwind: 64, MaxInstr: 5_000_000,
-		SolverArgv: []string{"z3", "-in"}, SolverName: "z3 4.8.12 (second opinion on unknown: z3 5.1.0)", SolverTimeoutMs: timeout,
-		SecondSolverArgv: []string{"z3-new", "-in"},
+		SolverArgv: []string{"z3-new", "-in"}, SolverName: "z3 5.1.0 (second opinion on unknown: z3 4.8.12)", SolverTimeoutMs: timeout, BranchTimeoutMs: 400,
+		SecondSolverArgv: []string{"z3", "-in"},
 		InitPkgs:         map[string]bool{"strconv": true, "unicode/utf8": true, "math": true, "math/bits": true, "unicode": true, "sort": true, "bytes": true, "io": true},
 		LenientPkgs:      map[string]bool{"time": true, "errors": true},
 		Trace:            *trace, SessionPaths: 150, LogDir: *logdir, Thorough: thorough,
@@ -217,15 +218,35 @@ func main() {
 			if thorough {
 				budget *= 6
 			}
+			if *budgetFlag > 0 {
+				budget = *budgetFlag
+			}
 			opts.Deadline = time.Now().Add(time.Duration(budget) * time.Second)
 			sum := eng.Explore(h.fn, ws, opts)
 			hr := &harnessReport{Name: n, Rel: h.rel, Stage: st.Name, Sum: sum, Subst: substNotes}
+			if os.Getenv("GSX_PROFILE") != "" {
+				fmt.Fprintf(os.Stderr, "  slowest path: %s\n", sum.Slowest)
+				type kv struct {
+					k string
+					v float64
+				}
+				var kvs []kv
+				for k, v := range sum.LabelTime {
+					kvs = append(kvs, kv{k, v})
+				}
+				sort.Slice(kvs, func(a, b int) bool { return kvs[a].v > kvs[b].v })
+				for i, e := range kvs {
+					if i < 8 {
+						fmt.Fprintf(os.Stderr, "  profile: %-60s %.1fs\n", e.k, e.v)
+					}
+				}
+			}
 			if os.Getenv("GSX_OBSERVE") != "" {
 				fmt.Fprintf(os.Stderr, "  observes: %v\n", sum.LastObserves)
 			}
 			rep.Harnesses = append(rep.Harnesses, hr)
-			fmt.Fprintf(os.Stderr, "[%s] %s: paths=%d outcomes=%v discharged=%d/%d findings=%d unknown=%d incomplete=%d unsupported=%d %.1fs\n",
-				st.Name, n, sum.Paths, sum.Outcomes, total(sum.AssertsOK), total(sum.AssertsSeen), len(sum.Findings), len(sum.Unknown), len(sum.Incomplete), len(sum.Unsupported), sum.WallS)
+			fmt.Fprintf(os.Stderr, "[%s] %s: paths=%d outcomes=%v discharged=%d/%d findings=%d unknown=%d incomplete=%d unsupported=%d %.1fs (solver %.1fs cpu, %d calls, %d instrs)\n",
+				st.Name, n, sum.Paths, sum.Outcomes, total(sum.AssertsOK), total(sum.AssertsSeen), len(sum.Findings), len(sum.Unknown), len(sum.Incomplete), len(sum.Unsupported), sum.WallS, sum.SolverS, sum.Queries, sum.Instrs)
 			if len(sum.Findings) > 0 || len(sum.Unknown) > 0 || len(sum.Incomplete) > 0 || len(sum.Unsupported) > 0 {
 				clean = false
 			}
